@@ -1,5 +1,5 @@
 """BOUNDED stand-in / native witness search for C19 (never counted as proved):
- (1) every grammar term of depth <= 2 over the combinators (Char, AnyChar, InSet, Literal, EOF; Sequence, Choice, Many with lower bound 0/1 over
+ (1) every grammar term of depth <= 2 over the combinators (and, since round 4, terms written with the operators + | << >> & / and until / sep_by / String) (Char, AnyChar, InSet, Literal, EOF; Sequence, Choice, Many with lower bound 0/1 over
      consuming terms, Opt, FollowedBy, NotFollowedBy, KeepLeft, KeepRight) on every input over {a, b} up to length LEN, against a reference PEG
      interpreter written from the property (left to right, first matching alternative, greedy repetition / option, look-ahead consumes nothing,
      a failed alternative leaves no trace); success/failure, the value and the position reached are compared;
@@ -136,7 +136,86 @@ if MODE == "full":
 else:
     d1 = depth1[::3] + depth1[-20:]
 depth2 = grow(LEAVES[:4], d1) + grow(d1, LEAVES[:4]) + [many(x, k) for x in d1 if x[3] for k in (0, 1)] + [opt(x) for x in d1]
-TERMS = LEAVES + depth1 + depth2
+
+
+# ---- terms built the way grammars are written: with the operators and helper methods (a + b, a | b, <<, >>, &, /, until, sep_by, String)
+def flat3(x, y, z):
+    def ref(s, p):
+        out = []
+        for t in (x, y, z):
+            r = t[2](s, p)
+            if r is None:
+                return None
+            p = r[0]
+            out.append(r[1])
+        return (p, out)
+    return ref
+
+
+def until_ref(x, y):
+    def ref(s, p):
+        out = []
+        while y[2](s, p) is None:
+            r = x[2](s, p)
+            if r is None or r[0] == p:
+                break
+            p = r[0]
+            out.append(r[1])
+        return (p, out)
+    return ref
+
+
+def sepby_ref(x, sep):
+    def ref(s, p):
+        r = x[2](s, p)
+        if r is None:
+            out = []
+        else:
+            p, out = r[0], [r[1]]
+        while True:
+            r1 = sep[2](s, p)
+            if r1 is None:
+                break
+            r2 = x[2](s, r1[0])
+            if r2 is None:
+                break
+            p = r2[0]
+            out.append(r2[1])
+        return (p, out)
+    return ref
+
+
+def string_ref(chars, min_length):
+    def ref(s, p):
+        q = p
+        while q < len(s) and s[q] in chars:
+            q += 1
+        return (q, s[p:q]) if q - p >= min_length else None
+    return ref
+
+
+from insights.parsr import String
+L4 = LEAVES[:4]
+OPTERMS = [("String('a')", lambda: String("a"), string_ref("a", 1), True), ("String('ab', min_length=2)", lambda: String("ab", min_length=2), string_ref("ab", 2), True),
+           ("String('b', min_length=0)", lambda: String("b", min_length=0), string_ref("b", 0), False)]
+for x, y in itertools.product(L4, L4):
+    OPTERMS += [("%s + %s" % (x[0], y[0]), (lambda x=x, y=y: x[1]() + y[1]()), seq(x, y)[2], True),
+                ("%s | %s" % (x[0], y[0]), (lambda x=x, y=y: x[1]() | y[1]()), choice(x, y)[2], True),
+                ("%s << %s" % (x[0], y[0]), (lambda x=x, y=y: x[1]() << y[1]()), keepleft(x, y)[2], True),
+                ("%s >> %s" % (x[0], y[0]), (lambda x=x, y=y: x[1]() >> y[1]()), keepright(x, y)[2], True),
+                ("%s & %s" % (x[0], y[0]), (lambda x=x, y=y: x[1]() & y[1]()), followed(x, y)[2], True),
+                ("%s / %s" % (x[0], y[0]), (lambda x=x, y=y: x[1]() / y[1]()), notfollowed(x, y)[2], True),
+                ("%s.until(%s)" % (x[0], y[0]), (lambda x=x, y=y: x[1]().until(y[1]())), until_ref(x, y), False),
+                ("%s.sep_by(%s)" % (x[0], y[0]), (lambda x=x, y=y: x[1]().sep_by(y[1]())), sepby_ref(x, y), False)]
+for x, y, z in itertools.product(L4[:3], L4[:3], L4[:3]):
+    OPTERMS += [("%s + (%s + %s)" % (x[0], y[0], z[0]), (lambda x=x, y=y, z=z: x[1]() + (y[1]() + z[1]())), seq(x, seq(y, z))[2], True),
+                ("(%s + %s) + %s" % (x[0], y[0], z[0]), (lambda x=x, y=y, z=z: (x[1]() + y[1]()) + z[1]()), flat3(x, y, z), True),
+                ("%s | (%s | %s)" % (x[0], y[0], z[0]), (lambda x=x, y=y, z=z: x[1]() | (y[1]() | z[1]())), choice(x, choice(y, z))[2], True),
+                ("(%s | %s) | %s" % (x[0], y[0], z[0]), (lambda x=x, y=y, z=z: (x[1]() | y[1]()) | z[1]()), choice(choice(x, y), z)[2], True),
+                ("(%s + %s) | %s" % (x[0], y[0], z[0]), (lambda x=x, y=y, z=z: (x[1]() + y[1]()) | z[1]()), choice(seq(x, y), z)[2], True),
+                ("%s + (%s | %s)" % (x[0], y[0], z[0]), (lambda x=x, y=y, z=z: x[1]() + (y[1]() | z[1]())), seq(x, choice(y, z))[2], True),
+                ("%s >> (%s + %s)" % (x[0], y[0], z[0]), (lambda x=x, y=y, z=z: x[1]() >> (y[1]() + z[1]())), keepright(x, seq(y, z))[2], True)]
+TERMS = LEAVES + depth1 + depth2 + OPTERMS
 INPUTS = [""] + ["".join(t) for n in range(1, LEN + 1) for t in itertools.product("ab", repeat=n)]
 REST = ("rest", None, None, None)
 n = 0
